@@ -43,3 +43,11 @@ package cache
 //@   ensures "nonempty-or-eof" [C16] implies(!d.closed && n > 0 && err == nil, len(entries) > 0)
 //@   ensures "all" [C16] implies(!d.closed && n <= 0 && old(srcListErr(d)) == nil, err == nil && len(entries) == len(old(srcList(d))) - old(pStart(d, d.offset)))
 //@   nopanic
+
+//@ func (d *dir) Stat() (info hackpadfs.FileInfo, err error)
+//@   props C17 C10
+//@   requires dirOK(d)
+//@   modifies world()
+//@   ensures "closed" [C17] implies(d.closed, info == nil && closedErr(err, d) && world() == old(world()))
+//@   ensures "same-as-fs" [C10] implies(!d.closed, info == old(ret("hackpadfs.Stat", 0, hackpadfs.FS(d.fs), d.name)) && err == old(ret("hackpadfs.Stat", 1, hackpadfs.FS(d.fs), d.name)))
+//@   nopanic
